@@ -81,6 +81,10 @@ func bigLit(n *big.Int) Term {
 
 // Enc owns the declarations of one SMT script (one function / lemma).
 type Enc struct {
+	declSyms    map[string]bool
+	declScanned int
+	iteConsts  map[string]Term
+	freshNames map[string]bool
 	recInfos  map[string]*recInfo // per-encoder cache (one encoder per function under verification; never shared between goroutines)
 	P         *Program
 	decls     []string
@@ -147,6 +151,10 @@ func (e *Enc) note(s string) { e.notes[s] = true }
 func (e *Enc) fresh(prefix, sort string) Term {
 	e.nfresh++
 	name := fmt.Sprintf("%s!%d", sanitize(prefix), e.nfresh)
+	if e.freshNames == nil {
+		e.freshNames = map[string]bool{}
+	}
+	e.freshNames[name] = true
 	e.decls = append(e.decls, fmt.Sprintf("(declare-const %s %s)", name, sort))
 	return name
 }
@@ -348,6 +356,12 @@ func (e *Enc) strAxioms() []string {
 		n := e.strLits[s]
 		names = append(names, n)
 		out = append(out, fmt.Sprintf("(assert (= (str_len %s) %d))", n, len(s)))
+		// the bytes of short literals (when some instruction indexes or spreads a string)
+		if e.declared["fn:str_at"] && len(s) <= 32 {
+			for k := 0; k < len(s); k++ {
+				out = append(out, fmt.Sprintf("(assert (= (str_at %s %d) %d))", n, k, s[k]))
+			}
+		}
 	}
 	if len(names) > 1 {
 		out = append(out, "(assert (distinct "+strings.Join(names, " ")+"))")
